@@ -51,6 +51,9 @@ type Gen struct {
 	// bep3 swaps we created: swap id -> random number
 	secrets map[string][]byte
 	nonce   int
+	// Focus "cdp": only cdp operations (and bank sends), biased to minimum-size positions, so that the CDPs of
+	// a history are the only debt in the cdp module account.
+	Focus string
 	// Soft avoids amounts that sit exactly on a ratio / balance boundary (used for C14's follow-up block,
 	// where the two chains may differ by the one base unit of interest the export settles).
 	Soft bool
@@ -237,6 +240,22 @@ func (g *Gen) cdpCreate(ctx sdk.Context) *TxSpec {
 	}
 	msg := cdptypes.NewMsgCreateCDP(u.Addr, sdk.NewCoin(cp.Denom, coll), sdk.NewCoin("usdx", prin), cp.Type)
 	return one("cdp.create", u, &msg, fmt.Sprintf("%s %s%s -> %susdx", cp.Type, coll, cp.Denom, prin))
+}
+
+// cdpCreateMin opens a position at (or a few units above) the debt floor with comfortable collateral.
+func (g *Gen) cdpCreateMin(ctx sdk.Context) *TxSpec {
+	cp, ok := g.cdpParam(ctx)
+	if !ok {
+		return nil
+	}
+	u := g.user()
+	prin := sdkmath.NewInt(10_000_000 + g.R.Range(0, 3))
+	coll, ok := g.amountForUsd(ctx, cp.Denom, sdk.NewDecFromInt(prin).Mul(cp.LiquidationRatio).MulInt64(g.R.Range(11, 30)).QuoInt64(10).TruncateInt())
+	if !ok || !coll.IsPositive() {
+		return nil
+	}
+	msg := cdptypes.NewMsgCreateCDP(u.Addr, sdk.NewCoin(cp.Denom, coll), sdk.NewCoin("usdx", prin), cp.Type)
+	return one("cdp.create", u, &msg, fmt.Sprintf("%s min-size %s%s -> %susdx", cp.Type, coll, cp.Denom, prin))
 }
 
 func (g *Gen) anyCDP(ctx sdk.Context) (cdptypes.CDP, bool) {
@@ -1060,6 +1079,12 @@ type weighted struct {
 }
 
 func (g *Gen) table() []weighted {
+	if g.Focus == "cdp" {
+		return []weighted{
+			{2, g.bankSend}, {10, g.cdpCreateMin}, {3, g.cdpCreate}, {3, g.cdpDeposit}, {2, g.cdpWithdraw},
+			{4, g.cdpDraw}, {3, g.cdpRepay}, {2, g.cdpLiquidate}, {4, g.auctionBid},
+		}
+	}
 	return []weighted{
 		{4, g.bankSend},
 		{8, g.cdpCreate}, {5, g.cdpDeposit}, {3, g.cdpWithdraw}, {5, g.cdpDraw}, {4, g.cdpRepay}, {2, g.cdpLiquidate},
